@@ -29,15 +29,49 @@ def showTerm : Term → String
   | .nc op c x => "nc(" ++ showOp op ++ "," ++ showRat c ++ "," ++ showTerm x ++ ")"
   | .neg x => "neg(" ++ showTerm x ++ ")"
 
+def showEss : Ess → String
+  | .interval => "I" | .dist => "D" | .pbox => "P" | .dss => "S"
+
 def showRes : Except UErr (Res Term) → String
-  | .ok r => s!"ok {showTerm r.cons} {showRat r.dim.m} {showRat r.dim.s} {showRat r.dim.kg}"
+  | .ok r => s!"ok {showTerm r.cons} {showRat r.dim.m} {showRat r.dim.s} {showRat r.dim.kg} {showEss r.ess} {showRat r.nom}"
   | .error e => s!"err {e}"
 
 def showPB : Option PBn → String
   | some p => s!"ok {showList p.left} {showList p.right}"
   | none => "err ZeroDivision"
 
+/-- steps of a history: `R <op> <c>` (acc op c) | `L <op> <c>` (c op acc) | `S <op>` (acc op acc) | `G` (-acc) -/
+def parseSteps : List String → Option (List (Step Term))
+  | [] => some []
+  | "R" :: op :: c :: rest => do
+      let s ← parseSteps rest
+      some (.opR (← parseOp op) (.num (← parseRat c)) :: s)
+  | "L" :: op :: c :: rest => do
+      let s ← parseSteps rest
+      some (.opL (← parseOp op) (← parseRat c) :: s)
+  | "S" :: op :: rest => do
+      let s ← parseSteps rest
+      some (.self (← parseOp op) :: s)
+  | "G" :: rest => do
+      let s ← parseSteps rest
+      some (.neg :: s)
+  | _ => none
+
+def showUN : Except UErr (UNv Term) → String
+  | .ok r => s!"ok {showTerm r.cons} {showRat r.dim.m} {showRat r.dim.s} {showRat r.dim.kg} {showEss r.ess} {showRat r.nom}"
+  | .error e => s!"err {e}"
+
 def handle : List String → String
+  | "hist" :: which :: rest =>
+    match parseOpd .A rest with
+    | some (.un u, rest') =>
+      match parseSteps rest' with
+      | some steps =>
+        if which == "code" then showUN (runHist (codeStep termAlg) u steps)
+        else if which == "spec" then showUN (runHist (specStep termAlg) u steps)
+        else "bad-op"
+      | none => "bad-op"
+    | _ => "bad-op"
   | "bin" :: which :: op :: rest =>
     match parseOp op, parseOpd .A rest with
     | some o, some (l, rest') =>
